@@ -21,7 +21,7 @@ CLAIMED = {
     "C17": dict(
         engine="srvsim",
         technique="deterministic simulation of the real service with 2-3 simulated clients: seeded interleavings at every database await point (handlers parked between any two of their calls), database faults, clock jumps, tiny temporary-name space; provenance-based foreign-write oracle inside the store, marker-based foreign-data oracle on responses, credential and own-view oracles",
-        text="2-3 clients with cookie jars run generated scripts over all ten endpoints; every submitted code carries its client's marker and every stored document the provenance of the request that created it. The simulator interleaves the clients' handlers between any two database calls of one handler, fails database calls, jumps the clock and restarts the server process (fresh session key, only the store survives). Verdicts: no response contains another client's marker; no request or background task modifies or deletes a document another client created (checked at the call); own view equals the client's acknowledged data (disjoint-name configuration); stored credentials are salted argon2 strings, never plaintext, never equal for two accounts; a login is acknowledged iff the credential found was produced from the submitted password; requests without a valid session get no problem data; every client re-executed alone under the projection of the same schedule sees the identical history (O5, disjoint configuration). Two configurations (disjoint / contended account names) run separately. Exploration-level evidence; one open known finding (rename window).",
+        text="2-3 clients with cookie jars run generated scripts over all ten endpoints; every submitted code carries its client's marker and every stored document the provenance of the request that created it. The simulator interleaves the clients' handlers between any two database calls of one handler, fails database calls, jumps the clock and restarts the server process (fresh session key, only the store survives). Verdicts: no response contains another client's marker; no request or background task modifies or deletes a document another client created (checked at the call); own view equals the client's acknowledged data (disjoint-name configuration); stored credentials are salted argon2 strings, never plaintext, never equal for two accounts; a login is acknowledged iff the credential found was produced from the submitted password; requests without a valid session get no problem data; every client re-executed alone under the projection of the same schedule sees the identical history (O5, disjoint configuration). Two configurations (disjoint / contended account names) run separately. Exploration-level evidence; two open known findings (rename window; running flag of a former holder of an account name).",
         design_ref="DESIGN.md 5.6",
         note="Trusted: MongoDB stub incl. provenance bookkeeping, names stub, harness model.",
     ),
@@ -33,10 +33,10 @@ CLAIMED = {
         note="Trusted: table walker, harness. Hash-iteration order is varied, not controlled. Insensitive by design to purely functional bugs (wrong on both sides).",
     ),
     "C14": dict(
-        engine="libsim+clisim",
+        engine="libsim+libsim_ovf+srvsim+clisim",
         technique="deterministic simulation with restart injection: 'restart' (JSON export/import+repair, or node-list rebuild) is one more generated operation at any point of a seeded call history, only durable state survives; oracle = never-restarted twin + element-wise identity of nodes/roots across the restart",
-        text="Crash-consistency pattern applied to the two persistence paths: restarts are drawn at arbitrary points of seeded call histories, any number of times; volatile (#[serde(skip)]) tables are lost. Verdicts: nodes and roots identical immediately after each restart; every later answer equals the never-restarted twin's; no panic after recovery. Exploration-level evidence.",
-        design_ref="DESIGN.md 5.4",
+        text="Crash-consistency pattern applied to the two persistence paths: restarts are drawn at arbitrary points of seeded call histories, any number of times; volatile (#[serde(skip)]) tables are lost. Verdicts: nodes and roots identical immediately after each restart; every later answer equals the never-restarted twin's; no panic after recovery (a second build of the same simulator with arithmetic overflow checks runs a share of the histories incl. 63-70 statement instances); the dbround part runs the service's own storage conversions (server/src/adf.rs) with a BSON round trip as the restart step inside histories of the six web strategies and compares handle for handle with a never-stored twin. Exploration-level evidence.",
+        design_ref="DESIGN.md 5.4, 13.2",
         note="Trusted: harness, table walker, strace's syscall tampering. CLI part (clisim): the real adf-bdd binary under strace fault injection, path-filtered to the export file: k-th write fails (ENOSPC/EIO/EINTR) or the process is killed at it, statx/openat fail; verdicts: an existing export target is never modified, an export that exits 0 imports to the same answers, fault-free round trip prints the same output.",
     ),
     "C06": dict(
@@ -47,16 +47,16 @@ CLAIMED = {
         note="Trusted: table walker and structural checker. The purely sequential part of canonicity over plain operand functions is a pure property and not claimed.",
     ),
     "C05": dict(
-        engine="libsim",
+        engine="libsim+heusim",
         technique="deterministic simulation: adversarial heuristic and Rand seeds drawn from the seeded decision source, solver/consumer threads baton-scheduled over simulated unbounded/bounded/rendezvous channels; multiset oracle against truth-table semantics, termination as a loop-iteration budget, channel closure as scheduler deadlock detection",
-        text="Seeded search over ADFs x heuristics (built-ins, Rand under drawn seeds, a custom adversary that answers every call from the decision source = every search history such a heuristic can induce) x entry points x channel kinds x solver/consumer interleavings. Verdicts: delivered multiset equals the definitional stable / two-valued models (each once), the search ends within a counted iteration budget (bounded liveness in simulated steps, no wall clock), and the consumer loop ends (otherwise the scheduler reports a deadlock with a replayable schedule). Exploration-level evidence.",
-        design_ref="DESIGN.md 5.2",
+        text="Seeded search over ADFs x heuristics (built-ins, Rand under drawn seeds, a custom adversary that answers every call from the decision source = every search history such a heuristic can induce) x entry points x channel kinds x solver/consumer interleavings. Verdicts: delivered multiset equals the definitional stable / two-valued models (each once), the search ends within a counted iteration budget (bounded liveness in simulated steps, no wall clock), and the consumer loop ends (otherwise the scheduler reports a deadlock with a replayable schedule). Large instances (66-130 statements) are sparse with an exact reduction oracle. A small differential part (cliheu, 10 % of the budget, no schedule or fault - not a simulation) executes the real binary with --stmng/--twoval and every --heu value against --stm/--com: it watches a repaired defect of the CLI observation point. Exploration-level evidence.",
+        design_ref="DESIGN.md 5.2, 13.2",
         note="Trusted: refsem oracle (self-tested on the repo's textbook examples), channel stub, scheduler, the tick hook (one added line in the search loop). Real: nogood_internal, all heuristics, NoGoodStore, parser/Bdd/bridge.",
     ),
     "C19": dict(
         engine="libsim",
         technique="deterministic simulation: seeded random schedules over a baton-scheduled producer/relay/receiver on a simulated channel, peer-drop faults, prefix/found-flag/final-equality oracles on the recorded history",
-        text="Seeded search over (producer operation sequence, poll targets, peer-drop point) x schedules: who runs at each channel operation is a recorded decision, so polls fall between the individual sends of one producer operation. After every poll the mirror must be an exact prefix of the producer's final table with consumed+2 entries and the found flag must equal presence; after the drain all tables are equal, through a relay too; the producer must equal an unstreamed twin. Exploration-level evidence: a clean batch is evidence, not proof; bounds are in the evidence.",
+        text="Seeded search over (producer operation sequence, poll targets, peer-drop point) x schedules: who runs at each channel operation is a recorded decision, so polls fall between the individual sends of one producer operation. After every poll the mirror must be an exact prefix of the producer's final table with consumed+2 entries and the found flag must equal presence; after the drain all tables are equal, through a relay too; the producer must equal an unstreamed twin; a large-backlog mode lets one poll meet a stream of up to 4 200 messages, and the producer polls its own (receiver-less) store. Exploration-level evidence: a clean batch is evidence, not proof; bounds are in the evidence.",
         design_ref="DESIGN.md 5.1",
         note="Trusted: the channel stub's fidelity to crossbeam-channel (differentially self-tested), the baton scheduler, the harness. Real: Bdd operations, node(), recv(), constructors from /repo/lib/src.",
     ),
@@ -111,6 +111,10 @@ def main():
              "kind_free_text": "deterministic simulation of the web service: real handlers/middleware/solver in-process on a paused current-thread runtime, gated in-memory MongoDB stub, parked blocking closures, seeded step scheduler with fault injection, shrinking + replay files"},
             {"name": "clisim", "path": "/verif/sim/clisim", "serves_properties": ["C14"],
              "kind_free_text": "the real adf-bdd binary in a private directory under strace syscall fault injection at exact, replayable positions (single-threaded process => deterministic fault points); seeded case generation, fault-position enumeration in the thorough tier"},
+            {"name": "heusim", "path": "/verif/sim/clisim", "serves_properties": ["C05"],
+             "kind_free_text": "differential execution of the real adf-bdd binary (nogood options with every --heu value against the lazy semantics); seeded case generation, no schedule or fault - watches a repaired CLI defect"},
+            {"name": "libsim_ovf", "path": "/verif/sim/libsim", "serves_properties": ["C14"],
+             "kind_free_text": "the libsim engine, library and shims compiled with -C overflow-checks=on into /verif/target/ovf (the arithmetic a dev/test-profile build of the library has)"},
             {"name": "libsim", "path": "/verif/sim/libsim", "serves_properties": sorted(p for p, c in CLAIMED.items() if "libsim" in c["engine"]),
              "kind_free_text": "deterministic simulation of the library: baton-scheduled real threads over a simulated crossbeam-channel, seeded decision source, restart/peer-drop faults, shrinking + replay files"},
         ],
